@@ -58,6 +58,14 @@ drbg_ref_reseed(struct drbg_ref * D, const uint8_t * seed, size_t seedlen)
 	D->reseed_counter = 1;
 }
 
+/* The state update of 10.1.2.2 alone (used for the RDRAND build, which mixes 32 more bytes in after every (re)seed). */
+void
+drbg_ref_extra(struct drbg_ref * D, const uint8_t * data, size_t len)
+{
+
+	update(D, data, len);
+}
+
 void
 drbg_ref_generate(struct drbg_ref * D, uint8_t * out, size_t len)
 {
